@@ -738,6 +738,10 @@ func (t *State) verifyMarkedTx(tx *pb.Transaction) error {
 	ok, err := xcc.VerifyECDSA(ecdsaKey, bytesign, digestHash)
 	if err != nil || !ok {
 		t.log.Warn("verifyMarkedTx validateUpdateBlockChainData verifySignatures failed")
+		if err == nil {
+			// a signature that does not verify is a rejection, with or without an error
+			err = errors.New("signature of the marked tx is invalid")
+		}
 		return err
 	}
 	return nil
